@@ -205,6 +205,70 @@ def check_file(rep, prog):
               "header start bytes changed: %r" % (st,))
 
 
+def check_text_formats(rep, prog):
+    """'decoding a dump file written in either supported hex format gives the same result as decoding its raw bytes': the
+    summary of the text parser is run on sample dumps rendered in both formats (short last lines, comment / blank lines in
+    between, excerpts whose address column does not start at 0 or wraps around) and must give back the bytes"""
+    rule = "C17.R4.empty-and-files"
+    q = "pel.hexdump.parse"
+    if not prog.has_func(q):
+        raise AnalysisError("anchor %s not found" % q)
+    I = Interpreter(prog)
+    LINES, FMT = Sym("lines"), Sym("line_format")
+    r = I.call(q, [LINES, FMT])
+    fm = I.global_value("io_drawer.dump", "HEX_DUMP_LINE_FORMATS")
+    fmts = [i[1].v for i in (list_items(I, fm) or []) if is_const(i[1], str)]
+
+    def render(data, f, base, lower):
+        out = []
+        for off in range(0, len(data), 16):
+            hexs = data[off:off + 16].hex()
+            hexs = hexs if lower else hexs.upper()
+            line, di, ai, addr = "", 0, 0, "%04X" % ((base + off) & 0xFFFF)
+            for ch in f:
+                if ch == "A":
+                    line += addr[ai]
+                    ai += 1
+                elif ch == "D":
+                    if di >= len(hexs):
+                        break
+                    line += hexs[di]
+                    di += 1
+                elif ch == "C":
+                    line += "."
+                else:
+                    line += ch
+            out.append(line.rstrip() + "\n")
+        return out
+    bad = None
+    n = 0
+    for f in fmts:
+        for ln in (0, 1, 15, 16, 17, 33, 48):
+            data = bytes((i * 37 + 11) % 256 for i in range(ln))
+            for base, lower, junk in ((0, False, False), (0, True, True), (0x0100, False, False), (0xFFF0, False, True)):
+                if "A" not in f and base:
+                    continue
+                lines = render(data, f, base, lower)
+                if junk:
+                    lines = ["# dump taken with the service tool\n", "\n"] + lines[:1] + ["\n", "   \n"] + lines[1:] + ["end of dump\n"]
+                env = pelx.with_heap(I, {LINES: lines, FMT: f, Op("len", LINES): len(lines), Op("len", FMT): len(f), Op("truthy", LINES): bool(lines)})
+                try:
+                    got = evaluate(r, env)
+                    got = bytes(got) if isinstance(got, (list, bytes, bytearray)) else got
+                except CannotEval as e:
+                    raise AnalysisError("text dump parser summary not evaluable: %s" % e)
+                except Exception as e:
+                    got = "<raises %s: %s>" % (type(e).__name__, e)
+                n += 1
+                if got != data and bad is None:
+                    bad = "%d bytes rendered as %r%s%s: parsed back as %s" % (
+                        ln, f[:24] + "...", " with the address column starting at 0x%04X" % base if base else "",
+                        " between comment / blank lines" if junk else "", got.hex() if isinstance(got, bytes) else got)
+    rep.count("text dump samples parsed", n)
+    rep.check(bad is None and n >= 30, rule, "a dump rendered in either supported text format parses back to exactly its bytes (address column "
+              "ignored, short last line, other lines skipped)", q, "parse(lines, line_format)", bad or "only %d samples" % n)
+
+
 def check_cli_output(rep, prog):
     """the dump CLI prints exactly the lines it got: one print per line, hence nothing at all for an empty result"""
     rule = "C17.R4.empty-and-files"
@@ -236,5 +300,6 @@ def run(rep, prog, thorough):
     check_formatters(rep, prog)
     check_file(rep, prog)
     check_cli_output(rep, prog)
+    check_text_formats(rep, prog)
     from ..effects import check_no_memoised
     check_no_memoised(rep, prog, 'C17.R3.region-decoders', ['io_drawer'], 'results of an earlier decode are reused')
